@@ -47,6 +47,7 @@ var yamlOf = map[string]map[string]string{
 	"strategy": {"round_robin": "  strategy: \"round_robin\"\n", "least_connections": "  strategy: \"least_connections\"\n", "weighted_round_robin": "  strategy: \"weighted_round_robin\"\n",
 		"ip_hash": "  strategy: \"ip_hash\"\n", "ip_hash_consistent": "  strategy: \"ip_hash_consistent\"\n", "unset": "", "i_random": "  strategy: \"random\"\n"},
 	"wspool": {"off": "", "on": "  websocket_pool:\n    enabled: true\n    max_idle: 10\n    max_active: 100\n    idle_timeout_seconds: 300\n",
+		"on_active0":       "  websocket_pool:\n    enabled: true\n    max_idle: 10\n    max_active: 0\n    idle_timeout_seconds: 300\n",
 		"on_zeros":         "  websocket_pool:\n    enabled: true\n    max_idle: 0\n    max_active: 0\n    idle_timeout_seconds: 0\n",
 		"i_idle_gt_active": "  websocket_pool:\n    enabled: true\n    max_idle: 20\n    max_active: 10\n", "i_neg_idle": "  websocket_pool:\n    enabled: true\n    max_idle: -1\n",
 		"i_neg_timeout": "  websocket_pool:\n    enabled: true\n    idle_timeout_seconds: -5\n"},
